@@ -991,6 +991,11 @@ static int asn1_oid_node_from_base128(uint32_t *a, const uint8_t **in, size_t *i
 		error_print();
 		return -1;
 	}
+	// the leading octet of a subidentifier shall not be 0x80 (X.690 8.19.2)
+	if (n > 1 && buf[0] == 0x80) {
+		error_print();
+		return -1;
+	}
 
 	*a = 0;
 	for (i = 0; i < n; i++) {
